@@ -242,6 +242,9 @@ func c11Lifecycle(c *core.Ctx, root *packages.Package) {
 					good = false
 					c.Fail("C11.lifecycle", "influxqlGroup.BatchPoint#count", p.RetPos, "a point is aggregated without incrementing batchSize: EndBatch's empty-batch rule then looks at something else than the points actually aggregated")
 				}
+			} else if p.Has("batchSize") {
+				good = false
+				c.Fail("C11.lifecycle", "influxqlGroup.BatchPoint#count-only-aggregated", p.RetPos, "batchSize is incremented on a path that does not aggregate the point (%s): a batch in which no point carries the field then counts as non-empty, and EndBatch calls Emit on an empty reducer (NaN, -Inf, or a nil dereference in first/last/min/max)", p.Cond())
 			}
 		}
 		if good {
